@@ -252,40 +252,28 @@ def s6(ck, an):
         subj = f.short if f.cls is c else f"{c.name}.calculate (inherited from {f.cls.name})"
         envp = f.params[1]
 
-        def risk(s, fw):
-            # `if ret < 0: ret *= (1 + self.risk_aversion)`
-            if len(s.body) == 1 and isinstance(s.body[0], ast.AugAssign) and isinstance(s.body[0].op, ast.Mult) and not s.orelse:
-                cnd = fw.cmp(s.test)
-                tgt = s.body[0].target
-                if cnd[0] == "rel" and cnd[1] == "<" and isinstance(tgt, ast.Name) and cnd[4] == fw.st.locals.get(tgt.id) and fw.ev(s.body[0].value) == Poly.const(1) + Poly.atom("self.risk_aversion"):
-                    risk_seen.append(s)
-                    return True
-            return False
-        risk_seen = []
-        fw = Forward(an, fa, skip_if=risk, call_effects=False).run()
-        rets = [v for r, v, st in fw.returns if v is not None]
-        if len(rets) != 1:
-            ck.fail("SIB", "S6.reward-formula", subj, f.loc, f"{c.name}.calculate has {len(rets)} value returns", construct="return")
+        # the returned value, by value id (temporaries, `x /= s`, statement-form conditionals all normalise away)
+        rc_ = [r for r in returns_in(fa) if r.value is not None]
+        if len(rc_) != 1:
+            ck.fail("SIB", "S6.reward-formula", subj, f.loc, f"{c.name}.calculate has {len(rc_)} value returns", construct="return")
             continue
-        ret = rets[0]
+        ret = fa.sym.ev(rc_[0].value, fa.node_of(rc_[0]).id)
         txt = ret.key().replace(envp + ".", "env.")
-        atoms = {a.replace(envp + ".", "env.") for a in ret.atoms()}
-        flat = " ".join(sorted(atoms))
+        flat = txt
         ck.check(LAST in flat and NOW in flat, "SIB", "S6.reward-reads-recorded-pre-nlv-and-current-nlv", subj, f.loc,
                  "the reward is a function of the last entry's pre-trade NLV and the current NLV", f"{c.name} reward reads {flat[:200]}", construct="calculate inputs")
         ck.check("context_post" not in flat and "_initial_deposit" not in flat, "SIB", "S6.reward-not-post-trade", subj, f.loc, "the reward does not use the post-trade snapshot",
                  f"{c.name} reward reads {flat[:200]}", construct="calculate inputs")
-        fe = Forward(an, fa, call_effects=False)
+        now_, last_ = NOW.replace("env.", envp + "."), LAST.replace("env.", envp + ".")
         if c.name in spec:
-            exp = fe.ev(ast.parse(spec[c.name].replace("env.", envp + "."), mode="eval").body)
+            exp = specv(fa, spec[c.name].replace("env.", envp + "."))
             ck.check(ret == exp, "LIN", "S6.reward-formula", subj, f.loc, f"{c.name} = {spec[c.name].replace(NOW, 'NLV_now').replace(LAST, 'NLV_pre')}",
-                     f"{c.name} returns {txt}; expected {exp.key()}", construct=f"{c.name}.calculate")
+                     f"{c.name} returns {txt[:300]}; expected {exp.key()[:300]}", construct=f"{c.name}.calculate")
         elif c.name == "LogReturn":
-            exp = fe.ev(ast.parse(f"np.clip(np.log({NOW} / {LAST}) / self.scale, -self.clip, +self.clip)".replace("env.", envp + "."), mode="eval").body)
-            ck.check(ret == exp, "LIN", "S6.reward-formula", subj, f.loc, "LogReturn = clip(log(NLV_now / NLV_pre) / scale, -clip, +clip), then risk aversion on negatives",
-                     f"LogReturn returns {txt}; expected {exp.key()}", construct="LogReturn.calculate")
-            ck.check(len(risk_seen) == 1, "LIN", "S6.risk-aversion-shape", subj, f.loc, "negative rewards are multiplied by (1 + risk_aversion) after clipping",
-                     "the risk-aversion step is missing or has another shape", construct="if ret < 0: ret *= 1 + self.risk_aversion")
+            R = f"np.clip(np.log({now_} / {last_}) / self.scale, -self.clip, +self.clip)"
+            exp = specv(fa, f"{R} * (1 + self.risk_aversion) if {R} < 0 else {R}")
+            ck.check(ret == exp, "LIN", "S6.reward-formula", subj, f.loc, "LogReturn = r x (1 + risk_aversion) if r < 0 else r, with r = clip(log(NLV_now / NLV_pre) / scale, -clip, +clip)",
+                     f"LogReturn returns {txt[:400]}; expected {exp.key()[:400]}", construct="LogReturn.calculate")
             summ = attribute_summary(an, c.methods["__init__"]) if "__init__" in c.methods else {}
             for a in ("scale", "clip", "risk_aversion"):
                 v = summ.get(a)
